@@ -904,4 +904,198 @@ theorem conv_fr (E : Env) (A : List Nat) (hleak : ∀ i ∈ E.leak, i ∈ A) :
           · exact hinit [] [] (by simp)
           · exact Fr.refl (by simp [resIds])
 
+/-! ### one parse through the public API -/
+
+theorem callWith_fr (optsOf : List (Option Opts) → Nat → Opts) (E : Env) (A : List Nat)
+    (hleak : ∀ i ∈ E.leak, i ∈ A) (target wrapper : Nat) (ks : List String) (xs : List Val)
+    (hx : ∀ v ∈ xs, ∀ i ∈ v.mutIds, i ∈ A) (s : St) :
+    Fr A s (callWith optsOf E target wrapper ks xs s).2 (resIds (callWith optsOf E target wrapper ks xs s).1) := by
+  simp only [callWith]
+  cases hk : E[target]? with
+  | none => exact Fr.refl (by simp [resIds])
+  | some d =>
+    simp only
+    split
+    · have h1 := parseData_fr (conv E (optsOf d.wrappers wrapper) fuelDefault) A { d with dfs := false } ks xs hx
+        (fun t w hw s => conv_fr E A hleak fuelDefault _ t w hw s)
+        (fun f hf i hi => hleak i (leak_of_field hk f hf i hi)) s
+      cases hr : parseData (conv E (optsOf d.wrappers wrapper) fuelDefault) { d with dfs := false } ks xs s with
+      | mk r s1 =>
+        rw [hr] at h1
+        cases r with
+        | error e => exact h1.err
+        | ok vals =>
+          simp only
+          have h2 := mkBinding_fr vals s1
+          exact h1.comp (h2.weaken (fun i hi => List.mem_append_right _ (by simpa [resIdsKV] using hi)) (fun _ h => h))
+    · exact initWith_fr (conv E {} fuelDefault) A E target ks xs hx
+        (fun t w hw s => conv_fr E A hleak fuelDefault _ t w hw s) hleak s
+
+/-! ### in-place writes -/
+
+mutual
+theorem write_eq_self (i : Nat) (f : Kind → List String → List Val → Option (List String × List Val)) (v : Val)
+    (h : i ∉ v.mutIds) : v.write i f = v := by
+  match v with
+  | .none => simp [Val.write]
+  | .int _ => simp [Val.write]
+  | .str _ => simp [Val.write]
+  | .node j k ks xs =>
+    have hxs : i ∉ mutIdsL xs := fun hh => h (mutIdsL_sub_node hh)
+    have ih := writeL_eq_self i f xs hxs
+    simp only [Val.write, ih]
+    split
+    · rename_i hc
+      exfalso
+      simp only [Bool.and_eq_true, beq_iff_eq] at hc
+      apply h
+      simp [Val.mutIds, hc.2, hc.1]
+    · rfl
+theorem writeL_eq_self (i : Nat) (f : Kind → List String → List Val → Option (List String × List Val)) (xs : List Val)
+    (h : i ∉ mutIdsL xs) : writeL i f xs = xs := by
+  match xs with
+  | [] => simp [writeL]
+  | v :: vs =>
+    simp only [mutIdsL, List.mem_append, not_or] at h
+    simp [writeL, write_eq_self i f v h.1, writeL_eq_self i f vs h.2]
+end
+
+/-- a write that only puts atoms (or nothing) into the object -/
+def AddsNoIds (f : Kind → List String → List Val → Option (List String × List Val)) : Prop :=
+  ∀ k ks xs ks' xs', f k ks xs = some (ks', xs') → ∀ j ∈ mutIdsL xs', j ∈ mutIdsL xs
+
+mutual
+theorem write_ids_sub (i : Nat) (f : Kind → List String → List Val → Option (List String × List Val))
+    (hf : AddsNoIds f) (v : Val) : ∀ j ∈ (v.write i f).mutIds, j ∈ v.mutIds := by
+  match v with
+  | .none => simp [Val.write]
+  | .int _ => simp [Val.write]
+  | .str _ => simp [Val.write]
+  | .node a k ks xs =>
+    have ih := writeL_ids_sub i f hf xs
+    intro j hj
+    simp only [Val.write] at hj
+    have hsub : ∀ j, j ∈ (Val.node a k ks (writeL i f xs)).mutIds → j ∈ (Val.node a k ks xs).mutIds := by
+      intro j hj
+      cases hk : k.mutable with
+      | true =>
+        simp only [Val.mutIds, hk, if_true] at hj ⊢
+        rcases List.mem_cons.mp hj with h | h
+        · simp [h]
+        · exact List.mem_cons_of_mem _ (ih j h)
+      | false =>
+        simp only [Val.mutIds, hk] at hj ⊢
+        exact ih j (by simpa using hj)
+    by_cases hc : (a == i && k.mutable) = true
+    · have hk : k.mutable = true := by simp only [Bool.and_eq_true] at hc; exact hc.2
+      simp only [hc, if_true] at hj
+      cases hfe : f k ks (writeL i f xs) with
+      | none => rw [hfe] at hj; exact hsub j hj
+      | some p =>
+        obtain ⟨ks', xs'⟩ := p
+        rw [hfe] at hj
+        simp only at hj
+        rcases mutIds_node_sub hj with h | h
+        · simp [Val.mutIds, hk, h]
+        · exact mutIdsL_sub_node (ih j (hf _ _ _ _ _ hfe j h))
+    · simp only [hc] at hj
+      exact hsub j hj
+theorem writeL_ids_sub (i : Nat) (f : Kind → List String → List Val → Option (List String × List Val))
+    (hf : AddsNoIds f) (xs : List Val) : ∀ j ∈ mutIdsL (writeL i f xs), j ∈ mutIdsL xs := by
+  match xs with
+  | [] => simp [writeL]
+  | v :: vs =>
+    intro j hj
+    simp only [writeL, mutIdsL, List.mem_append] at hj ⊢
+    rcases hj with h | h
+    · exact Or.inl (write_ids_sub i f hf v j h)
+    · exact Or.inr (writeL_ids_sub i f hf vs j h)
+end
+
+/-! ### writes applied to a world -/
+
+theorem map_eq_self {α : Type _} (f : α → α) (l : List α) (h : ∀ a ∈ l, f a = a) : l.map f = l := by
+  induction l with
+  | nil => rfl
+  | cons a l ih =>
+    simp only [List.map]
+    rw [h a (by simp), ih (fun b hb => h b (List.mem_cons_of_mem _ hb))]
+
+theorem declIds_of_field {E : Env} {d : Decl} {fl : Field} {v : Val} (hd : d ∈ E) (hf : fl ∈ d.fields)
+    (hv : v ∈ fl.dflt.vals) : ∀ i ∈ v.mutIds, i ∈ E.declIds := by
+  intro i hi
+  refine mem_mutIdsL.mpr ⟨v, ?_, hi⟩
+  simp only [Env.dfltVals, Decl.dfltVals, List.mem_flatMap]
+  exact ⟨d, hd, fl, hf, hv⟩
+
+theorem rootIds_of_root {w : World} {v : Val} (h : some v ∈ w.roots) : ∀ i ∈ v.mutIds, i ∈ w.rootIds := by
+  intro i hi
+  refine mem_mutIdsL.mpr ⟨v, ?_, hi⟩
+  simp only [World.rootVals, List.mem_filterMap]
+  exact ⟨some v, h, rfl⟩
+
+theorem writeAll_env_eq (w : World) (i : Nat) (f : Kind → List String → List Val → Option (List String × List Val))
+    (h1 : i ∉ w.env.declIds) : (w.writeAll i f).env = w.env := by
+  simp only [World.writeAll]
+  apply map_eq_self
+  intro d hd
+  have : d.fields.map (Field.write i f) = d.fields := by
+    apply map_eq_self
+    intro fl hfl
+    have hd' : fl.dflt.write i f = fl.dflt := by
+      cases hdf : fl.dflt with
+      | none => rfl
+      | fresh sh => rfl
+      | val v =>
+        have hv : i ∉ v.mutIds := fun hh => h1 (declIds_of_field hd hfl (by simp [hdf, Dflt.vals]) i hh)
+        simp [Dflt.write, write_eq_self i f v hv]
+      | shared v =>
+        have hv : i ∉ v.mutIds := fun hh => h1 (declIds_of_field hd hfl (by simp [hdf, Dflt.vals]) i hh)
+        simp [Dflt.write, write_eq_self i f v hv]
+    simp only [Field.write, hd']
+  simp only [Decl.write, this]
+
+theorem writeAll_roots_eq (w : World) (i : Nat) (f : Kind → List String → List Val → Option (List String × List Val))
+    (h2 : i ∉ w.rootIds) : (w.writeAll i f).roots = w.roots := by
+  simp only [World.writeAll]
+  apply map_eq_self
+  intro r hr
+  cases r with
+  | none => rfl
+  | some v =>
+    have hv : i ∉ v.mutIds := fun hh => h2 (rootIds_of_root hr i hh)
+    simp [write_eq_self i f v hv]
+
+theorem writeAll_next (w : World) (i : Nat) (f : Kind → List String → List Val → Option (List String × List Val)) :
+    (w.writeAll i f).next = w.next := rfl
+
+theorem World.ext' {a b : World} (h1 : a.env = b.env) (h2 : a.next = b.next) (h3 : a.roots = b.roots) : a = b := by
+  cases a; cases b; simp_all
+
+theorem writeAll_eq_self (w : World) (i : Nat) (f : Kind → List String → List Val → Option (List String × List Val))
+    (h1 : i ∉ w.env.declIds) (h2 : i ∉ w.rootIds) : w.writeAll i f = w :=
+  World.ext' (writeAll_env_eq w i f h1) rfl (writeAll_roots_eq w i f h2)
+
+theorem applyWrites_eq_self (w : World) (ws : List Nat)
+    (h : ∀ i ∈ ws, i ∉ w.env.declIds ∧ i ∉ w.rootIds) : w.applyWrites ws = w := by
+  induction ws with
+  | nil => rfl
+  | cons i ws ih =>
+    simp only [World.applyWrites, List.foldl]
+    have := writeAll_eq_self w i clobber (h i (by simp)).1 (h i (by simp)).2
+    rw [this]
+    exact ih (fun j hj => h j (List.mem_cons_of_mem _ hj))
+
+theorem writeAll_rootIds_sub (w : World) (i : Nat) (f : Kind → List String → List Val → Option (List String × List Val))
+    (hf : AddsNoIds f) : ∀ j ∈ (w.writeAll i f).rootIds, j ∈ w.rootIds := by
+  intro j hj
+  obtain ⟨v, hv, hjv⟩ := mem_mutIdsL.mp hj
+  simp only [World.rootVals, World.writeAll, List.mem_filterMap, List.mem_map] at hv
+  obtain ⟨r, ⟨r0, hr0, hr0e⟩, hre⟩ := hv
+  cases r0 with
+  | none => simp at hr0e; subst hr0e; simp at hre
+  | some v0 =>
+    simp at hr0e; subst hr0e; simp at hre; subst hre
+    exact rootIds_of_root hr0 j (write_ids_sub i f hf v0 j hjv)
+
 end Utv.C19
